@@ -501,7 +501,8 @@ def r4(ctx) -> None:
 
 
 def check(ctx) -> None:
-    r1(ctx)
-    r2(ctx)
-    r3(ctx)
-    r4(ctx)
+    for g in check.groups:
+        g(ctx)
+
+
+check.groups = [r1, r2, r3, r4]
